@@ -227,6 +227,58 @@ def obligations(r, tier, seed):
             k.same(back, M, "upper_triangular_matrix_to_full_matrix(M[triu]) == M for symmetric M")
         obs.append(Ob("C13/internal/information-packing/n=%d" % n, tri, tier="internal", funcs=["graphslam.util.upper_triangular_matrix_to_full_matrix"]))
 
+    # ---- internal: each writer/parser pair on its own (per-function contracts; the top-level obligations above go through Graph)
+    def pair_vertex(k):
+        r_ = k.r
+        k.install_tokens()
+        for T in ("R2", "R3", "SE2", "SE3"):
+            v = r_.Vertex(-12, k.pose(T, "v" + T))
+            line = v.to_g2o()
+            k.check(isinstance(line, str) and line.endswith("\n") and line.count("\n") == 1, "%s: one line ending in a newline" % T)
+            w = r_.Vertex.from_g2o(line)
+            k.check(w is not None and w.id == -12 and type(w.pose) is type(v.pose), "%s: Vertex.from_g2o(to_g2o()) gives the same id and class" % T)
+            same_pose_fields(k, T, w.pose, v.pose, "%s vertex" % T)
+            k.check(all(r_.Vertex.from_g2o(l) is None for l in ("", "EDGE_SE2 1 2 3", "VERTEX_SE2X 1 2 3 4")), "other lines give None")
+    obs.append(Ob("C13/internal/Vertex.to_g2o-from_g2o", pair_vertex, tier="internal", funcs=FUNCS[2:4], light=True))
+
+    def pair_params(k):
+        r_ = k.r
+        k.install_tokens()
+        P2, P3 = r_.g2o_parameters.G2OParameterSE2Offset, r_.g2o_parameters.G2OParameterSE3Offset
+        for cls, T, tag in ((P2, "SE2", "PARAMS_SE2OFFSET"), (P3, "SE3", "PARAMS_SE3OFFSET")):
+            p = cls((tag, 4), k.pose(T, "p" + T))
+            q = cls.from_g2o(p.to_g2o())
+            k.check(q is not None and q.key == (tag, 4), "%s: key preserved" % tag)
+            same_pose_fields(k, T, q.value, p.value, tag)
+            k.check(cls.from_g2o("VERTEX_SE2 1 2 3 4") is None, "%s: other lines give None" % tag)
+    obs.append(Ob("C13/internal/G2OParameter.to_g2o-from_g2o", pair_params, tier="internal", funcs=FUNCS[8:10], light=True))
+
+    def pair_edges(k):
+        r_ = k.r
+        k.install_tokens()
+        for T in ("SE2",):
+            vs = [r_.Vertex(1, k.pose(T, "a")), r_.Vertex(2, k.pose(T, "b"))]
+            e = r_.EdgeOdometry([1, 2], k.spd_matrix("O" + T, POSE_C[T]), k.pose(T, "z"), vs)
+            f = r_.EdgeOdometry.from_g2o(e.to_g2o())
+            k.check(f is not None and list(f.vertex_ids) == [1, 2] and f.vertices is None, "odometry %s: ids preserved, not yet bound" % T)
+            k.same(f.information, e.information, "odometry %s: information" % T)
+            same_pose_fields(k, T, f.estimate, e.estimate, "odometry %s: measurement" % T)
+        vs = [r_.Vertex(1, k.pose("SE2", "a")), r_.Vertex(2, k.pose("R2", "l"))]
+        e = r_.EdgeLandmark([1, 2], k.spd_matrix("OL", 2), k.pose("R2", "zl"), r_.PoseSE2.identity(), 0, vs)
+        f = r_.EdgeLandmark.from_g2o(e.to_g2o(), {})
+        k.check(f is not None and list(f.vertex_ids) == [1, 2], "landmark SE2: ids preserved")
+        k.same(f.information, e.information, "landmark SE2: information")
+        k.same(f.estimate.to_array(), e.estimate.to_array(), "landmark SE2: measurement")
+        vs = [r_.Vertex(1, k.pose("SE3", "c")), r_.Vertex(2, k.pose("R3", "m"))]
+        off = k.pose("SE3", "off")
+        e = r_.EdgeLandmark([1, 2], k.spd_matrix("OM", 3), k.pose("R3", "zm"), off, 9, vs)
+        par = r_.g2o_parameters.G2OParameterSE3Offset(("PARAMS_SE3OFFSET", 9), off)
+        f = r_.EdgeLandmark.from_g2o(e.to_g2o(), {par.key: par})
+        k.check(f is not None and f.offset is off and f.offset_id == 9, "landmark SE3: offset resolved through the parameter id")
+        k.same(f.information, e.information, "landmark SE3: information")
+        k.same(f.estimate.to_array(), e.estimate.to_array(), "landmark SE3: measurement")
+    obs.append(Ob("C13/internal/Edge.to_g2o-from_g2o", pair_edges, tier="internal", funcs=FUNCS[4:8], light=True))
+
     # canaries
     def canary(k):
         g0 = build(k, family()["se2-odometry"], "g")
